@@ -7,6 +7,7 @@ import importlib
 sets=json.load(open('/verif/rules/p7_sets.json'))
 REASONS=json.load(open('/verif/rules/p7_reasons.json'))   # list of [fn-substring, kind-substring, reason]
 aud={}
+guards={}
 missing=[]
 for prop,spec in sets.items():
     prefs,excl=spec[0],spec[1]; contains=spec[2] if len(spec)>2 else []
@@ -17,7 +18,11 @@ for prop,spec in sets.items():
         lp=[s for s in ss if s.kind=='panic' and p7.discharge(F,s) is None]
         keys=[s.key() for s in ss if s.kind!='panic' and p7.discharge(F,s) is None]
         if lp: keys.append(f"{b.fn}|panic|x{len(lp)}")
+        sitemap={s.key():s for s in ss if s.kind!='panic'}
         for k in keys:
+            if k in sitemap:
+                lb=p7.length_lower_bounds(b, sitemap[k].bb)
+                if lb: guards[k]=lb
             r=None
             for fsub,ksub,reason in REASONS:
                 if fsub in k.split('|')[0] and ksub in '|'.join(k.split('|')[1:]):
@@ -25,5 +30,7 @@ for prop,spec in sets.items():
             if r: aud[k]=r
             else: missing.append(k)
 json.dump(aud,open('/verif/rules/p7_audited.json','w'),indent=1,sort_keys=True)
+json.dump({k:v for k,v in guards.items() if k in aud},open('/verif/rules/p7_guards.json','w'),indent=1,sort_keys=True)
+print(len([k for k in guards if k in aud]),'audited entries rest on a recorded length guard')
 print(len(aud),'audited;',len(missing),'without a reason')
 for m in missing: print('  ',m)
